@@ -8,7 +8,7 @@
   void* verif_block_##N(void) { return malloc(sizeof(struct vblk##N)); }
 #define VBYTES(N) struct vbytes##N { void* next; uint64_t size; uint8_t payload[N]; }; \
   void* verif_bytes_##N(void) { return malloc(sizeof(struct vbytes##N)); }
-VBLK(64) VBLK(128) VBLK(256)
+VBLK(64) VBLK(128) VBLK(256) VBLK(512)
 VBYTES(64) VBYTES(128) VBYTES(256)
 struct vdyn { void* prev; void* next; void* self; uint64_t payload[4]; };
 void* verif_dyn_block(void) { return malloc(sizeof(struct vdyn)); }
